@@ -112,6 +112,7 @@ type Violation struct {
 	Case    Case   `json:"case"`
 	Min     Case   `json:"min"`
 	MinObs  string `json:"min_observed"`
+	MinExp  string `json:"min_expected,omitempty"`
 	Sig     string `json:"sig"`
 	Count   int64  `json:"count"` // how many enumerated cases were attributed to this signature
 	Shrinks int    `json:"shrinks"`
